@@ -33,7 +33,10 @@ pub fn run_c06(ctx: &mut Ctx) {
 fn far_index(ctx: &mut Ctx, fl: Flavor, room: u128) -> (u128, &'static str) {
     let limit = model::limit_blocks(fl).unwrap();
     let k = ctx.rng.below(5) as u128;
-    let cands: [(u128, &'static str); 9] = [
+    let lv = crate::wl::limb_u128(&mut ctx.rng);
+    let cands: [(u128, &'static str); 11] = [
+        (lv, "limbs"),
+        (lv % limit.max(1), "limbs"),
         (0, "0"),
         (1 + k, "small"),
         ((1u128 << 16) - 2 + k, "~2^16"),
